@@ -396,7 +396,7 @@ Fixpoint walk (rev_nodes : list node) (child : option bytes) (actual : list Z) :
         | BranchNode p links =>
           match index_of c links with
           | None => WUnlinked
-          | Some k => walk rest (Some h) (format_index k ++ hex_path p ++ actual)
+          | Some k => walk rest (Some h) (hex_path p ++ format_index k ++ actual)
           end
         end
       end
